@@ -156,6 +156,10 @@ def c01(ck):
                       "the empty configuration is checked for totality only"]
     ck.replay_stage("structure", "MC_C01", "MC_C01_quick.cfg" if ck.tier == "quick" else "MC_C01_thorough.cfg",
                     tlc_workers=10, harness_workers=8, timeout=3400)
+    # LiquidLex (the inner grammar as a PEG) + LiquidArgs (every tag's argument consumer): verdict of every piece sequence
+    # in every host tag, and the rendered output of the accepted ones through LiquidInterp
+    ck.replay_stage("arguments", "MC_Lex", "MC_Lex_quick.cfg" if ck.tier == "quick" else "MC_Lex_thorough.cfg",
+                    tlc_workers=10, harness_workers=4, timeout=3400)
     args = ["soups", "--cases", "4000", "--lexlen", "2"] if ck.tier == "quick" else ["soups", "--cases", "40000", "--lexlen", "3"]
     ck.trace_stage("soups", args, "Trace_Calls", "Trace_Calls.cfg", heap="6g", timeout=3400, split=8, boundary="Call")
 
@@ -251,8 +255,10 @@ def c07(ck):
                       "integer literal spellings are within the 64-bit range here; out-of-range spellings belong to C01"]
     if ck.tier == "quick":
         ck.replay_stage("paths3", "MC_C07", "MC_C07_quick.cfg")
+        ck.replay_stage("from-characters", "MC_Lex", "MC_Lex_values_quick.cfg", tlc_workers=8)
     else:
         ck.replay_stage("paths4", "MC_C07", "MC_C07_thorough.cfg", tlc_workers=12, timeout=3400)
+        ck.replay_stage("from-characters", "MC_Lex", "MC_Lex_values_thorough.cfg", tlc_workers=12, timeout=3400)
 
 
 def c08(ck):
